@@ -229,7 +229,7 @@ fn raw_c08(u: &mut Unstructured) -> arbitrary::Result<c08::Case> {
     let mut mutations = vec![];
     while !u.is_empty() && mutations.len() < 6 {
         let i: u16 = u.arbitrary()?;
-        mutations.push(match u.arbitrary::<u8>()? % 10 {
+        mutations.push(match u.arbitrary::<u8>()? % 11 {
             0 => Mutation::Drop(i),
             1 => Mutation::Dup(i),
             2 => Mutation::Swap(i),
@@ -239,6 +239,7 @@ fn raw_c08(u: &mut Unstructured) -> arbitrary::Result<c08::Case> {
             6 => Mutation::Seq(i, u.arbitrary()?),
             7 => Mutation::Broadcast(i, u.arbitrary::<u8>()? % 3),
             8 => Mutation::Peer(i),
+            9 => Mutation::PartialDatagram(i),
             _ => Mutation::EmptyFrame(i),
         });
     }
@@ -392,7 +393,7 @@ targets! {
     "C11":"snapshot" => c11::Snapshot,
     "C12":"replies" => c12::Replies,
     "C13":"iin" => c13::Iin,
-    "C14":"unsolicited" => c14::Unsol,
+    "C14":"unsolicited" => c14::Unsol, "C14":"long_delays" => c14::LongDelays,
     "C15":"accept" => c15::Accept,
     "C16":"commands" => c16::Commands, "C16":"outcomes" => c16::Outcomes,
     "C17":"startup" => c17::Startup,
